@@ -18,6 +18,9 @@ type Check struct {
 	CrashIsViolation bool
 	// Env returns extra environment variables for the worker of a shard (e.g. GORACE).
 	Env func(shard int) []string
+	// OSShards is the number of additional workers run from the binary built with -tags avfs_setostype
+	// (VERIF_PART=os in their environment): the part of a check about Windows-typed instances.
+	OSShards int
 	// Pre runs in the driver before the workers start.
 	Pre func(tier string)
 	// Post runs in the driver after all workers ended (e.g. to collect race-detector logs).
